@@ -121,6 +121,13 @@ fn table() -> Vec<Bad> {
     }
     push("check-ai-no-key", vec![a("check-ai", "must be fine")], vec![a("check-ai", "must be fine")], &["a", "b"], "ai-nokey");
     push("check-ai-no-key", vec![a("check-ai", "must be fine")], vec![a("check-ai", "must be fine")], &["a", "b"], "ai-emptykey");
+    // the key is missing whatever would have been sent: a pattern that extracts nothing, a pattern that extracts
+    // something, a block without content
+    for (pat, lines) in [("zzz-never", &["a", "b"][..]), ("[a-z]", &["a", "b"]), ("(?P<value>q+)", &["a", "b"])] {
+        push("check-ai-no-key", vec![a("check-ai", "must be fine"), a("check-ai-pattern", pat)], vec![a("check-ai", "must be fine"), a("check-ai-pattern", pat)], lines, "ai-nokey");
+        push("check-ai-no-key", vec![a("check-ai", "must be fine"), a("check-ai-pattern", pat)], vec![a("check-ai", "must be fine"), a("check-ai-pattern", pat)], lines, "ai-emptykey");
+    }
+    push("check-ai-no-key", vec![a("check-ai", "must be fine")], vec![a("check-ai", "must be fine")], &[], "ai-nokey");
     t
 }
 
@@ -334,7 +341,7 @@ pub fn check(b: &Bad, probe: &Probe) -> Verdict {
 }
 
 pub fn run(run: &mut Run) {
-    run.rule = "enumerated: a table of malformations judged invalid by the statement (sort direction, sort format, non-numeric keys (8 hand-picked blocks and every 1-, 2- and 3-line block over {1, 2, x, n/a, blank} in which a non-numeric key is reached before an out-of-order pair, incl. identical neighbours and blocks with a single key), 7 uncompilable regexes x 5 regex-bearing attributes on blocks with content, 15 bad line-count expressions, colon-less affects on a modified block, unknown severity on a violating block of every rule kind (keep-sorted, keep-unique, line-pattern, line-count, check-lua, check-ai), empty/missing/directory/invalid-UTF-8/empty-file Lua scripts, empty AI condition, missing/empty API key) x placement (first/middle/last block; healthy file before/after/both; other satisfied rules on the block) x mode (scan with paths, interactive scan, new-file diff); the sort-direction / sort-format / regex / line-count / Lua-script malformations also on a block written on ONE source line of a JavaScript file (content without a second physical line); every script-free malformation also next to a healthy check-lua block (synchronous and asynchronous validators joined in one run), every malformed script also BEHIND a healthy scripted block of the same file; each with a control run (malformation repaired) that must be healthy. Non-trivial = the malformed block is not alone/first. Quick runs a covering subset of the placement grid, thorough the full product.".into();
+    run.rule = "enumerated: a table of malformations judged invalid by the statement (sort direction, sort format, non-numeric keys (8 hand-picked blocks and every 1-, 2- and 3-line block over {1, 2, x, n/a, blank} in which a non-numeric key is reached before an out-of-order pair, incl. identical neighbours and blocks with a single key), 7 uncompilable regexes x 5 regex-bearing attributes on blocks with content, 15 bad line-count expressions, colon-less affects on a modified block, unknown severity on a violating block of every rule kind (keep-sorted, keep-unique, line-pattern, line-count, check-lua, check-ai), empty/missing/directory/invalid-UTF-8/empty-file Lua scripts, empty AI condition, missing/empty API key - also with a check-ai-pattern that extracts nothing or something, and on a block without content) x placement (first/middle/last block; healthy file before/after/both; other satisfied rules on the block) x mode (scan with paths, interactive scan, new-file diff); the sort-direction / sort-format / regex / line-count / Lua-script malformations also on a block written on ONE source line of a JavaScript file (content without a second physical line); every script-free malformation also next to a healthy check-lua block (synchronous and asynchronous validators joined in one run), every malformed script also BEHIND a healthy scripted block of the same file; each with a control run (malformation repaired) that must be healthy. Non-trivial = the malformed block is not alone/first. Quick runs a covering subset of the placement grid, thorough the full product.".into();
     run.assumptions = vec!["valid spellings are never expected to fail: every table entry is invalid by the statement's own wording".into()];
     let thorough = run.tier == crate::engine::Tier::Thorough;
     let items = enumerated(thorough);
